@@ -66,7 +66,7 @@ pub fn build_spec(property: &str, tier: &str, seed: u64) -> Option<Spec> {
             let phases: Vec<Box<dyn Phase>> = vec![
                 Box::new(c03::C03Search { docs: docs.clone(), runs: runs(10_000_000, 1_500_000_000, tier), max_items: 20_000 }),
                 Box::new(c03::C03CorpusBytes::new(docs)),
-                Box::new(c03::C03Deep { runs: if thorough { 3000 } else { 200 }, thorough }),
+                Box::new(c03::C03Deep { runs: if thorough { 4000 } else { 400 }, thorough }),
             ];
             Some(Spec {
                 property: "C03", level: "fault_enumeration", phases,
